@@ -126,7 +126,17 @@ def arity_findings(prog: Program, funcs) -> List[Tuple[FuncInfo, ast.AST, str]]:
     return out
 
 
+_ATTR_NAMES_CACHE: Dict[int, object] = {}
+
+
 def _attr_names(prog: Program, ci: ClassInfo) -> Optional[Set[str]]:
+    key = (id(prog), ci.qualname)
+    if key not in _ATTR_NAMES_CACHE:
+        _ATTR_NAMES_CACHE[key] = _attr_names_uncached(prog, ci)
+    return _ATTR_NAMES_CACHE[key]
+
+
+def _attr_names_uncached(prog: Program, ci: ClassInfo) -> Optional[Set[str]]:
     """all attribute / method names an instance of ci may have; None if it has external bases we cannot see."""
     names: Set[str] = set()
     for c in prog.mro(ci):
@@ -556,6 +566,36 @@ def unbound_locals(prog: Program, rep) -> None:
     (emptiness of an iterable is data); a name unbound along an ordinary path (a `break` / branch before its assignment) is a
     violation unless one of two correlated-guard idioms proves the path infeasible."""
     from ..defassign import possibly_unbound
+    # canaries: the analysis must report the three shapes it exists for, and stay silent on their repaired twins - on every run
+    CANARY = """
+def break_first(xs, t):
+    for x in xs:
+        if t.expired():
+            break
+        last = x
+    return last
+def branch_only(a):
+    if a:
+        v = 1
+    return v
+def fine_loop(xs, t):
+    last = None
+    for x in xs:
+        if t.expired():
+            break
+        last = x
+    return last
+def fine_while(t):
+    while True:
+        v = t.next()
+        if v:
+            break
+    return v
+"""
+    ctree = ast.parse(CANARY)
+    got = {f.name: [r.name for r in possibly_unbound(f, optimistic_loops=True)] for f in ctree.body}
+    if got != {"break_first": ["last"], "branch_only": ["v"], "fine_loop": [], "fine_while": []}:
+        raise AnalysisError(f"definite-assignment canary failed: {got}")
     n = 0
     for fi in prog.iter_functions():
         if not prog.in_scope(fi) or not isinstance(fi.node, (ast.FunctionDef, ast.AsyncFunctionDef)):
